@@ -20,6 +20,15 @@ Space
              veltkamp_split(x, s) for every member x and every 1 <= s <= p-1;
              split(x, n) n in [-6, 6], modf, frexp, ldexp(x, n) n in [-8, 8] for every member in the window
              [-8, 8], +-0, +-inf, NaN and Python floats carrying three more bits than the format.
+  clamping   (both tiers, decompositions only: split modf frexp ldexp, all four under every listed mode)
+             bounded contexts whose overflow CLAMPS to the largest finite value instead of producing an infinity:
+             IEEE(2,5), IEEE(3,6), EFloat(es=2, nbits=5, no inf, nan MAX_VAL), MPBFloat(p=3, emin=-2, maxval=5/2)
+             with every member, and IEEE(es=2, nbits=13) (p = 11, maxval ~ 3.998, subnormals whose integer
+             exponent -5..-10 exceeds maxval) with a thinned operand set (per binade the members with <= 3
+             significant digits and the all-ones members, the first/last extra-digit Python floats);
+             each under OVERFLOW x {RTZ, RTP, RTN} and SATURATE x {RNE, RTZ, RTP, RTN};
+             plus the wider Python operands +-100.5 whose split parts exceed maxval.
+             A part that is not a member must be refused, never clamped to +-maxval.
   Operands are obtained the documented way: `ctx.round(<Python number>)` or plain Python numbers.
 
 Oracle (mc.model.rounding, exact Fractions)
@@ -73,7 +82,7 @@ class Entry:
     """one context configuration (minus the rounding mode) and what is run under it"""
 
     def __init__(self, cfg: Config, ovf='OVERFLOW', only_ideal=False, probe=0, pairs=True, triples=True, wide_modes=ALL,
-                 fma_modes=ALL, fma_nearest=NEAREST, half_b=False):
+                 fma_modes=ALL, fma_nearest=NEAREST, half_b=False, dec_only=False, dec_modes=ALL, thin=False):
         self.cfg = cfg
         self.ovf = ovf
         self.only_ideal = only_ideal      # run only the ideal_* family (and the decompositions)
@@ -87,6 +96,10 @@ class Entry:
         self.half_b = half_b              # triples: b > 0 only (a*b+c is odd in (b, c))
         self.triples = triples            # run the three-operand functions
         self.dec = triples                # run veltkamp_split and the decompositions (off for the product-only entries)
+        self.dec_only = dec_only          # run ONLY split/modf/frexp/ldexp, all four under every mode of `dec_modes`
+        self.dec_modes = dec_modes        #   (the clamping-overflow entries)
+        self.thin = thin                  # decomposition operands: per binade the members with <= 3 significant
+        #                                   digits and the all-ones members, a few extra-digit Python floats
 
     def text(self):
         return f'{self.cfg.text()}/{self.ovf}'
@@ -129,6 +142,27 @@ def entries(tier: str, seed: int = 0) -> list[Entry]:
     for ovf in ('OVERFLOW', 'SATURATE', 'WRAP'):
         out.append(Entry(Config('Fixed', {'signed': True, 'scale': -2, 'nbits': 5}), ovf=ovf, only_ideal=True))
     out.append(Entry(Config('SMFixed', {'scale': -1, 'nbits': 4}), ovf='SATURATE', only_ideal=True))
+    out.extend(clamp_entries())
+    return out
+
+
+CLAMP_DIRECTED = ('RTZ', 'RTP', 'RTN')
+
+
+def clamp_entries() -> list[Entry]:
+    """bounded contexts whose overflow CLAMPS to the largest finite value (SATURATE under any mode; OVERFLOW under
+    RTZ, RTP for negatives, RTN for positives): a decomposition part that exceeds maxval (the integer exponent of
+    a subnormal under es=2/p=11, a split part of a wider Python operand) must be refused, never clamped.
+    Decompositions only, all four primitives under every listed mode, both tiers."""
+    cfgs = [(Config('IEEE', {'es': 2, 'nbits': 5}), False),
+            (Config('IEEE', {'es': 3, 'nbits': 6}), False),
+            (Config('EFloat', {'es': 2, 'nbits': 5, 'inf': False, 'nan_kind': 'MAX_VAL', 'eoffset': 0}), False),
+            (Config('MPBFloat', {'p': 3, 'emin': -2, 'maxval': Q(5, 2)}), False),
+            (Config('IEEE', {'es': 2, 'nbits': 13}), True)]
+    out = []
+    for cfg, thin in cfgs:
+        out.append(Entry(cfg, ovf='OVERFLOW', dec_only=True, dec_modes=CLAMP_DIRECTED, thin=thin))
+        out.append(Entry(cfg, ovf='SATURATE', dec_only=True, dec_modes=('RNE',) + CLAMP_DIRECTED, thin=thin))
     return out
 
 
@@ -140,7 +174,10 @@ def parse_params(params: dict) -> dict:
         elif v == 'None':
             P[k] = None
         else:
-            P[k] = Fraction(v) if '/' in v else int(v)
+            try:
+                P[k] = Fraction(v) if '/' in v else int(v)
+            except ValueError:
+                P[k] = v                # a name (EFloat nan_kind)
     return P
 
 
@@ -392,6 +429,10 @@ class Check(BaseCheck):
         for ei, entry in enumerate(self.entries):
             _, spec = entry.cfg.build('RNE', entry.ovf)
             for mi, mode in enumerate(MODES):
+                if entry.dec_only:
+                    if mode in entry.dec_modes:
+                        out.append((3000, ('dec', ei, mi)))
+                    continue
                 for fn in FN_ORDER:
                     if self.fn_runs(entry, spec, fn, mode) is None:
                         continue
@@ -596,6 +637,13 @@ class Check(BaseCheck):
         """texts of the operands of the decompositions: members, specials, Python numbers with extra digits"""
         spec = E.spec
         vals = operand_values(spec, wide=True)
+        thin = E.entry.thin
+        if thin:
+            def keep(v):
+                n = abs(v.numerator)
+                n //= n & -n
+                return n < 8 or (n & (n + 1) == 0 and n.bit_length() >= spec.p - 1)
+            vals = [v for v in vals if keep(v)]
         out = [str(v) for v in vals]
         for t in ('+0', '-0', '+inf', '-inf', 'nan'):
             try:
@@ -612,13 +660,15 @@ class Check(BaseCheck):
                     k = e
                 q = Q(2) ** (k - 3)
                 n = int(Q(2) ** e / q)
-                py += [Q(2) ** e + j * q for j in range(n) if j % 8]
+                py += [Q(2) ** e + j * q for j in range(n) if j % 8 and (not thin or j < 16 or j > n - 8)]
         else:
             u = Q(2) ** (spec.nmin + 1)
             py += [j * u / 8 for j in range(1, 24) if j % 8]
         for v in py:
             out += [f'py:{v}', f'py:{-v}']
         out += ['py:3', 'py:-5']
+        if E.entry.dec_only:
+            out += ['py:201/2', 'py:-201/2']        # a wider operand whose split parts exceed maxval
         return out
 
     def components_ok(self, E: Env, comps) -> bool:
@@ -738,7 +788,7 @@ class Check(BaseCheck):
         E = Env(entry, mode)
         ops = self.dec_operands(E)
         # split/modf/frexp do not round: the quick tier runs them under RNE and one seed-rotated mode
-        exact_fns = self.tier != 'quick' or mode in ('RNE', MODES[self.seed % 8])
+        exact_fns = self.tier != 'quick' or mode in ('RNE', MODES[self.seed % 8]) or entry.dec_only
         for xt in ops:
             if exact_fns:
                 for n in SPLIT_NS:
